@@ -257,6 +257,7 @@ Plan cppwrap_generate(uint64_t base, const std::string &prop, uint64_t index, in
         Node *cur = &holder;
         for (int i = 1; i < depth; i++) { Node c; c.t = V_ARR; cur->kids.push_back(c); cur = &cur->kids.back(); }
         Node leaf; leaf.t = V_INT; leaf.i = depth; cur->kids.push_back(leaf);
+        if (rd.chance(1, 2)) { Node o; o.t = V_OBJ; if (rd.chance(1, 2)) { Node v; v.t = V_BOOL; v.b = true; v.name = Bytes{'k'}; o.kids.push_back(v); } cur->kids.push_back(o); }   // an object as element of the innermost array
         bool dup = false; for (auto &kid : t.kids) if (kid.name == holder.name) dup = true;
         if (!dup) { t.kids.push_back(holder); std::sort(t.kids.begin(), t.kids.end(), [](const Node &a, const Node &b) { return a.name < b.name; }); p.faults.push_back(fmt("shape:arrays=%d", depth)); }
     }
